@@ -2,6 +2,7 @@ import QuantemModel.Lemmas.Constraints
 import QuantemModel.Lemmas.GramSchmidt
 import QuantemModel.Lemmas.ConstraintsWeights
 import QuantemModel.Lemmas.ConstraintsParseval
+import QuantemModel.Lemmas.ConstraintsHistory
 /-!
 C10 — object and probe constraints yield physically admissible models.
 Theorems are about `Model/Constraints.lean` at the real instance of the numeric carrier
@@ -275,6 +276,77 @@ theorem weights_normalised (w : List ℝ) (h : Num.sum w ≠ 0) : Num.sum (normW
   normWeights_sum w h
 theorem default_weights_normalised (n : Nat) (hn : 1 ≤ n) : Num.sum (defaultWeights n : List ℝ) = 1 :=
   defaultWeights_sum n hn
+
+
+/-! ## histories
+
+The clauses above are about ONE constrained read.  The state they read — the constraints dictionary and
+the requested probe weights — is reached through histories of public calls; these theorems say that
+a request, once made, is what later reads see. -/
+
+/-- **`add_constraint(k, v)` assigns exactly one entry**: a valid key reads back `v`, every other key
+(present or not) reads back what it did before, and the key set is unchanged. -/
+theorem add_constraint_frame {V : Type} (allowed : List String) (d d' : CDict V) (k : String) (v : V)
+    (h : addConstraint allowed d k v = .ok d') :
+    cget d' k = some v ∧ (∀ k', k' ≠ k → cget d' k' = cget d k') ∧
+    ((cget d k).isSome → d'.map (·.1) = d.map (·.1)) := by
+  unfold addConstraint at h
+  split at h
+  · simp only [Except.ok.injEq] at h
+    subst h
+    exact ⟨cget_cset_same d k v, fun k' hk' => cget_cset_other d k k' v hk', cset_keys d k v⟩
+  · simp at h
+
+/-- an invalid key raises `KeyError` (and `add_constraint` returns no new state) -/
+theorem add_constraint_invalid_key {V : Type} (allowed : List String) (d : CDict V) (k : String) (v : V)
+    (h : k ∉ allowed) : addConstraint allowed d k v = .error .keyError := by
+  simp [addConstraint, h]
+
+/-- **last writer wins, for every history**: after any sequence of valid `add_constraint` calls /
+entries of `constraints = {...}` assignments (the setter is the same sequence of single
+assignments), key `k` holds the value requested LAST for `k`, or its previous (default) value if it
+was never mentioned — an earlier `identical_slices=True` survives any number of later requests on
+other keys. -/
+theorem constraints_last_writer_wins {V : Type} (allowed : List String) (d : CDict V)
+    (items : List (String × V)) (hvalid : ∀ kv ∈ items, kv.1 ∈ allowed) (k : String) :
+    (setConstraints allowed d items).2 = none ∧
+    cget (setConstraints allowed d items).1 k = match lastWrite k items with
+                                                | some v => some v
+                                                | none => cget d k := by
+  rw [setConstraints_valid allowed items d hvalid]
+  exact ⟨rfl, cget_applyAdds items d k⟩
+
+/-- the instance the seeded defect broke: `identical_slices` requested, then two other keys -/
+example : cget (setConstraints ["identical_slices", "apply_fov_mask", "positivity"]
+      [("positivity", true), ("identical_slices", false), ("apply_fov_mask", false)]
+      [("identical_slices", true), ("apply_fov_mask", true), ("positivity", true)]).1 "identical_slices"
+    = some true := by decide
+
+/-- **the requested probe weights are never written**: after any number of `set_initial_probe` calls
+with any mean intensities and phase ramps the stored weights are the requested ones. -/
+theorem probe_history_weights_unchanged (st : ProbeState ℝ) (steps : List (ℝ × List (Img ℝ))) :
+    (runProbeHistory st steps).weights = st.weights :=
+  runProbeHistory_weights steps st
+
+/-- **every (re-)initialisation is exact**: whatever history came before, after a further
+`set_initial_probe` with mean intensity `M` the total diffraction intensity is `M` and mode `k`
+carries `w_k · M` with the ORIGINALLY requested weights `w` — provided the phase-shifted stack it
+starts from has non-zero rectangular modes. -/
+theorem probe_history_total (st : ProbeState ℝ) (steps : List (ℝ × List (Img ℝ))) (M : ℝ)
+    (ramps : List (Img ℝ)) (hM : 0 < M) (hw : ∀ x ∈ st.weights, 0 ≤ x) (hsum : Num.sum st.weights = 1)
+    (hE : ∀ p ∈ List.zipWith mulImg (runProbeHistory st steps).stack ramps, 0 < energy p)
+    (hlen : st.weights.length = (List.zipWith mulImg (runProbeHistory st steps).stack ramps).length)
+    (hrect : ∀ p ∈ List.zipWith mulImg (runProbeHistory st steps).stack ramps, ∃ nr nc, RectImg nr nc p) :
+    let fin := runProbeHistory st (steps ++ [(M, ramps)])
+    diffIntensity fin.stack = M ∧ fin.stack.map energy = st.weights.map (· * M) ∧
+      fin.weights = st.weights := by
+  intro fin
+  have hfin : fin = setInitialProbe M ramps (runProbeHistory st steps) := runProbeHistory_snoc st steps M ramps
+  have hwt : (runProbeHistory st steps).weights = st.weights := runProbeHistory_weights steps st
+  rw [hfin]
+  simp only [setInitialProbe, hwt]
+  exact ⟨weights_total M st.weights _ hM hw hE hlen hsum hrect,
+         (weights_mode_intensity M st.weights _ hM hw hE hlen hrect).1, trivial⟩
 
 
 /-! non-vacuity: the hypotheses are satisfiable on non-trivial inputs -/
